@@ -207,6 +207,13 @@ fn run(input: RunInput) -> ScenFuture {
         let mut cfg = base_config(idle_ms, Some(ka_ms));
         cfg.quic.as_mut().unwrap().max_concurrent_bidi_streams = Some(max_bidi);
         cfg.connect_timeout_ms = Some(3000);
+        // flow-control knobs: small windows force the blocked-on-credit paths of every stream
+        if w.flag("small_windows", 0.35) {
+            let q = cfg.quic.as_mut().unwrap();
+            q.stream_receive_window = Some(w.param("stream_receive_window", 2_000, 100_000) as u64);
+            q.receive_window = Some(w.param("receive_window", 8_000, 400_000) as u64);
+            q.send_window = Some(w.param("send_window", 8_000, 400_000) as u64);
+        }
 
         let mut nodes = Vec::new();
         let mut handles = Vec::new();
